@@ -66,8 +66,9 @@ func (p *Core) checkDelay(ci int, ps *PktState, r *sim.TxResult, lbl, out string
 	bd := ceilDiv(delay, p.mept)
 	T := uint64(c.LastTime.UnixNano())
 	H := uint64(r.Height)
-	passed := T >= pt+delay && H >= uint64(phh)+bd
-	side := fmt.Sprintf("dt%+d:dh%+d", clamp(int64(T)-int64(pt+delay)), clamp(int64(H)-int64(uint64(phh)+bd)))
+	// elapsed >= required, written so that nothing can wrap (pt+delay does for delays near 2^64)
+	passed := T >= pt && T-pt >= delay && H >= uint64(phh) && H-uint64(phh) >= bd
+	side := fmt.Sprintf("dt%+d:dh%+d", sideOf(T, pt, delay), sideOf(H, uint64(phh), bd))
 	w.Stats.NonTrivial(fmt.Sprintf("delay:%d/%d:%s:%s", delay, p.mept, side, out))
 	if out == "success" && !passed {
 		w.Violate("C19", "accepted-before-delay", "", fmt.Sprintf("%s: %s accepted in block %d at %d ns with proof height %s processed in block %d at %d ns; connection delay %d ns, max expected time per block %d ns => block delay %d: required time >= %d and height >= %d", ps.Pkt, lbl, H, T, ph, phh, pt, delay, p.mept, bd, pt+delay, uint64(phh)+bd))
@@ -81,6 +82,24 @@ func (p *Core) checkDelay(ci int, ps *PktState, r *sim.TxResult, lbl, out string
 	if out == "success" {
 		w.Stats.Probe("accepted_after_delay_period")
 	}
+}
+
+// sideOf is clamp((now - since) - need) computed without wrapping.
+func sideOf(now, since, need uint64) int64 {
+	if now < since {
+		return -2
+	}
+	el := now - since
+	if el >= need {
+		if el-need > 2 {
+			return 2
+		}
+		return int64(el - need)
+	}
+	if need-el > 2 {
+		return -2
+	}
+	return -int64(need - el)
 }
 
 func clamp(x int64) int64 {
@@ -126,6 +145,9 @@ func (p *Core) genDelayProbe() []sim.Op {
 	ops := append([]sim.Op{}, step[:len(step)-1]...)
 	ops = append(ops, sim.Op{K: "upd", P: ps.Route, X: int64(e), M: last.M})
 	bd := int64(ceilDiv(p.Opt.Delay, p.mept))
+	if bd < 0 || bd > 64 {
+		bd = 2 // the true block delay is out of reach: probe the first few blocks
+	}
 	k := bd + int64(w.Intn(3)) - 1
 	if k < 1 {
 		k = 1
@@ -142,6 +164,12 @@ func (p *Core) genDelayProbe() []sim.Op {
 		delta = int64(time.Minute)
 	}
 	total := int64(p.Opt.Delay) + delta
+	if p.Opt.Delay >= 1<<62 {
+		// a delay of centuries: the time boundary is beyond the representable clock; probe what
+		// happens a minute later (nothing may be accepted)
+		total = int64(time.Minute) + delta
+		w.Stats.Probe("delay_probe_with_unreachable_time_delay")
+	}
 	if total < k {
 		total = k
 	}
